@@ -26,7 +26,8 @@ Definition ext_eqb {A} (e : A -> A -> bool) (a b : ext A) : bool :=
 Definition omap_eqb {A B} (e : B -> B -> bool) (f : A -> B) (a : option A) (b : option B) : bool :=
   match a, b with Some x, Some y => e (f x) y | None, None => true | _, _ => false end.
 """
-RULE = ("jc: random integer feature trajectories (1..12 frames, 1..4 features and 1..5 states per side, the two sides "
+RULE = ("jc: (the text of matrix_bincount2d regenerated from libinfo.pyx, Gen/InfoGen.v, is evaluated in Coq on every "
+        "jc case with explicit state counts, next to the hand model) random integer feature trajectories (1..12 frames, 1..4 features and 1..5 states per side, the two sides "
         "different), all 8 integer dtypes on each side, C/F/strided layouts, 1..16 OpenMP threads, 1-D input, Y=None, "
         "default state counts, ids near the limit of 8-bit types against the opposite signedness; real joint_counts compared exactly with the model and with a brute-force count; malformed "
         "stream (negative id, id >= n, unequal lengths, empty) run in a worker subprocess and required to be rejected. "
@@ -985,6 +986,8 @@ def tags(c, r):
                 t.append("one-d")
             if c.get("wide"):
                 t.append("ids-near-dtype-limit")
+        if c["nx"] is not None and (c["Y"] is None or c["ny"] is not None) and r.get("err") != "Crashed":
+            t.append("generated-text-evaluated")
     if k == "mi":
         t.append("mi-self" if c["Y"] is None else "mi-two-sided")
     if k == "mitab" and any(sum(map(sum, H)) == 0 for r1 in c["jc"] for H in r1):
@@ -1006,7 +1009,7 @@ def tags(c, r):
     return t
 
 
-ESSENTIAL_TAGS = ["jc", "ids-near-dtype-limit", "default-n", "bad-neg", "bad-big", "bad-len", "mixed-dtypes", "different-feature-counts", "self",
+ESSENTIAL_TAGS = ["jc", "generated-text-evaluated", "ids-near-dtype-limit", "default-n", "bad-neg", "bad-big", "bad-len", "mixed-dtypes", "different-feature-counts", "self",
                   "layout-F", "layout-S", "mi-self", "mi-two-sided", "never-observed-pair", "normalized",
                   "cc-nonsquare", "cc-rejected", "kl-inf", "kl-zero", "kl-pos", "kl-near-equal", "uniform-weights", "general-weights"]
 
